@@ -1062,12 +1062,22 @@ func (g *vgen) top(t reflect.Type) reflect.Value {
 func (g *vgen) response(t reflect.Type) (reflect.Value, bool) {
 	names := []string{t.Name()}
 	target := t
+	exactSibling := false // some variant of the operation is one for an exact code (it has no StatusCode member)
 	if t.Kind() == reflect.Interface && t != readerType {
 		var cands []reflect.Type
 		names = nil
 		for _, c := range g.impls[t.Name()] {
 			n := c.String()
 			names = append(names, n)
+			ct := c
+			for ct.Kind() == reflect.Pointer {
+				ct = ct.Elem()
+			}
+			if ct.Kind() != reflect.Struct {
+				exactSibling = true
+			} else if _, has := ct.FieldByName("StatusCode"); !has {
+				exactSibling = true
+			}
 			if strings.Contains(n, "1XX") {
 				continue
 			}
@@ -1094,14 +1104,8 @@ func (g *vgen) response(t reflect.Type) (reflect.Value, bool) {
 				f.SetInt(int64(m[0]-'0')*100 + 99)
 				if m[0] == '2' && g.r.intn(3) == 0 {
 					// left unset: the server answers 200, and that is what arrives - unless a sibling variant may be
-					// the one for 200 itself (a variant whose name carries no class is one for an exact code)
-					only := true
-					for _, n := range names {
-						if n != own && nxx.FindString(n) == "" {
-							only = false
-						}
-					}
-					if only {
+					// the one for 200 itself
+					if !exactSibling {
 						f.SetInt(0)
 					}
 				}
@@ -1123,6 +1127,9 @@ func (g *vgen) response(t reflect.Type) (reflect.Value, bool) {
 					return reflect.Value{}, false
 				}
 				f.SetInt(code)
+				if !taken['2'] && !exactSibling && g.r.intn(3) == 0 {
+					f.SetInt(0) // a default variant left unset: 200, which no other variant claims
+				}
 			}
 		}
 	}
@@ -1247,20 +1254,22 @@ func typedHandler(impls map[string][]reflect.Type, shared bool) (func(ctx contex
 			// the answer depends on the operation and on the class of the call only (so that it is the same alone and
 			// among others), and every request of the class gets the same object
 			key := fmt.Sprintf("%s/%d", op, c.V%3)
-			mu.Lock()
-			cn := cache[key]
-			if cn == nil {
-				h := fnv.New64a()
-				h.Write([]byte(key))
-				g = &vgen{r: vrng{s: h.Sum64() ^ respSalt}, impls: impls, small: h.Sum64()&1 == 0, op: op}
-				if v, ok = g.response(rv.Type()); ok && !holdsReader(snap(v, false, 0)) {
-					cn = &canned{v: v, was: snap(v, false, 0), name: key}
-					cache[key] = cn
+			func() {
+				mu.Lock()
+				defer mu.Unlock()
+				cn := cache[key]
+				if cn == nil {
+					h := fnv.New64a()
+					h.Write([]byte(key))
+					g = &vgen{r: vrng{s: h.Sum64() ^ respSalt}, impls: impls, small: h.Sum64()&1 == 0, op: op}
+					if v, ok = g.response(rv.Type()); ok && !holdsReader(snap(v, false, 0)) {
+						cn = &canned{v: v, was: snap(v, false, 0), name: key}
+						cache[key] = cn
+					}
+				} else {
+					v, ok = cn.v, true
 				}
-			} else {
-				v, ok = cn.v, true
-			}
-			mu.Unlock()
+			}()
 		} else {
 			v, ok = g.response(rv.Type())
 		}
@@ -1731,7 +1740,8 @@ func faithfulReading(f *Fault, sent, recv []*Node) []string {
 	if err != nil || strings.TrimSpace(text) == "" || len(text) > 200 {
 		return nil
 	}
-	pieces := strings.FieldsFunc(text, func(c rune) bool { return c == ',' || c == '|' || c == ';' || c == ' ' || c == '.' })
+	// (a literal slash in a rewritten path segment makes several segments of it: each may be what a parameter holds)
+	pieces := strings.FieldsFunc(text, func(c rune) bool { return c == ',' || c == '|' || c == ';' || c == ' ' || c == '.' || c == '/' })
 	pieces = append(pieces, text)
 	var ds []leafDiff
 	for k := range sent {
